@@ -234,7 +234,7 @@ func (c *Client) Connect() error {
 
 	// Start the keepalive go routine
 	keepaliveQuit := make(chan struct{})
-	go keepalive(c.transport, c.config.KeepaliveInterval, keepaliveQuit)
+	go keepalive(c.keepaliveTransport(), c.config.KeepaliveInterval, keepaliveQuit)
 	// Start the receiver go routine
 	go c.recv(keepaliveQuit)
 	return err
@@ -299,7 +299,7 @@ func (c *Client) Resume() error {
 
 	// As in Connect: the new connection needs its own keepalive and receiver go routines
 	keepaliveQuit := make(chan struct{})
-	go keepalive(c.transport, c.config.KeepaliveInterval, keepaliveQuit)
+	go keepalive(c.keepaliveTransport(), c.config.KeepaliveInterval, keepaliveQuit)
 	go c.recv(keepaliveQuit)
 	return err
 }
@@ -465,6 +465,16 @@ func (c *Client) recv(keepaliveQuit chan<- struct{}) {
 		// send and receive more stanzas.
 		go c.router.route(c, val)
 	}
+}
+
+// keepaliveTransport returns what the keepalive of the session that was just established pings and, when a ping
+// fails, closes. The transport of the client is reused for the next connection; a transport that can bind itself to
+// its current connection does so, so that a keepalive can never reach into the connection that follows.
+func (c *Client) keepaliveTransport() Transport {
+	if b, ok := c.transport.(interface{ forThisConnection() Transport }); ok {
+		return b.forThisConnection()
+	}
+	return c.transport
 }
 
 // Loop: send whitespace keepalive to server
